@@ -397,10 +397,23 @@ pub fn run(o: &Opts) -> i32 {
         nreg += 1;
         emit(q, "regression", &mut req, &mut aux);
     }
-    for q in exponent_edges() {
+    // zero and near-zero values in every output mode; dates pushed past both ends of the calendar
+    let mut more: Vec<String> = vec![];
+    for v in ["0", "0 m", "3 - 3", "sin(0)", "0 kg m^2", "-0", "0.0", "0|5", "1e-400", "0 degC", "0 K", "1 - 1e-30"] {
+        for m in ["sci", "scientific", "eng", "engineering", "frac", "fraction", "hex", "bin", "oct", "base 36", "base 2", "digits", "digits 0", "digits 5", "sci base 2", "eng hex", "frac base 2", "digits 3 sci", "m", "degC"] {
+            more.push(format!("{} -> {}", v, m));
+        }
+    }
+    for d in ["now", "#2000-01-01 00:00 Asia/Tokyo#", "#262142-12-31 23:59#", "#-262143-01-01#", "#0001-01-01#", "#9999-12-31 23:59:59#"] {
+        for k in ["1 hour", "1e3 years", "1e5 years", "262000 years", "263000 years", "3e5 years", "1e6 years", "1e8 years", "2.9e8 years", "2.93e8 years", "1e9 years", "1e-9 s", "9223372036854775 s", "9223372036854776 s"] {
+            more.push(format!("{} + {}", d, k)); more.push(format!("{} - {}", d, k)); more.push(format!("{} + {}", k, d));
+        }
+        more.push(format!("{} - {}", d, d)); more.push(format!("{} - #-262143-01-01#", d)); more.push(format!("#262142-12-31 23:59# - {}", d));
+    }
+    for (q, kind) in more.iter().cloned().map(|q| (q, "regression")).chain(exponent_edges().into_iter().map(|q| (q, "exponent-edge"))) {
         if nreg % 8 == 7 { writeln!(req, "reset").unwrap(); writeln!(aux, "{}", json!({"k": "reset"})).unwrap(); emit("", "session-start", &mut req, &mut aux); }
         nreg += 1;
-        emit(&q, "exponent-edge", &mut req, &mut aux);
+        emit(&q, kind, &mut req, &mut aux);
     }
     for _ in 0..nsess {
         writeln!(req, "reset").unwrap(); writeln!(aux, "{}", json!({"k": "reset"})).unwrap();
